@@ -196,7 +196,9 @@ def run_shard(rec, tier, seed, shard, nshards):
         g = np.random.default_rng(int(rng.integers(0, 2**31)))
         if rng.random() < 0.3:
             g.random(int(rng.integers(1, 30)))
+        before_fp = RC.screen_fingerprint(kit, screen)
         ok, out = kit.returns(rec, name, fn, screen, g)
+        rec.check(RC.screen_fingerprint(kit, screen) == before_fp, "C13/input/mutated", "%s%r mutated its input screen" % (name, params), w)
         nun = sum(1 for v in w["plates"].values() if not v[1])
         rec.case((name, repr(sorted(params.items())), shash), nontrivial=ok and (nun >= 2 or len(set(str(x) for x in screen.sample_names)) >= 2))
         if not ok:
